@@ -508,6 +508,204 @@ pub fn cases(o: &mut Outcome, rng: &mut Rng, thorough: bool) {
     k.o.notes.push("lists: rewrite_comment is a parameter of the write_list model; the driver plugs in the model of identify_comment for normalize_comments = wrap_comments = false (RF/Model/ListsRc.lean), compared with the real rewrite_comment by `lists.rc`; comments outside it (block comment with a bare line) are filtered out by asking the model first".into());
 }
 
+
+// ---------------------------------------------------------------------------------------------
+// The itemizing half: `ListItems::next` and the four string functions it calls.
+
+const GAP_PIECES: &[&str] = &[" ", "\n", ",", "/* c */", "// d\n", "\n\n", "/* a, b */", "// x, y\n", "/* m\n * n */", "    ", "/** e */", "/* /* f */ */", "/*,*/", "//g"];
+
+fn enc_src(src: &[(Option<String>, String)]) -> String {
+    if src.is_empty() {
+        return "_".into();
+    }
+    src.iter().map(|(it, post)| format!("{}|{}", enc_opt(it), enc_str(post))).collect::<Vec<_>>().join(";")
+}
+
+fn enc_items_out(xs: Option<Vec<hl::Item>>) -> String {
+    match xs {
+        None => "panic".into(),
+        Some(v) => enc_items(&v),
+    }
+}
+
+/// One list given as its first pre-snippet and (item string, post-snippet) pairs: runs the real
+/// `itemize_list` on the concatenated text and pushes the correspondence and the gap oracle.
+fn itemize_case(o: &mut Outcome, desc: &'static str, sep: &str, term: &str, leave_last: bool, first_pre: &str, src: &[(Option<String>, String)], oracle: bool) {
+    // the source text: first_pre item1 post1 item2 post2 ...; the item texts themselves are irrelevant to the
+    // iterator (it reads the gaps only): `x<k>`
+    let mut text = String::from(first_pre);
+    let mut spans = vec![];
+    for (k, (it, post)) in src.iter().enumerate() {
+        let lo = text.len();
+        text.push_str(&format!("x{}", k));
+        spans.push((lo, text.len(), it.clone()));
+        text.push_str(post);
+    }
+    let end = text.len();
+    let real = guard(|| hl::itemize(&text, &spans, term, sep, 0, end, leave_last));
+    let nontrivial = src.len() > 1 || src.iter().any(|(_, p)| p.contains('/'));
+    o.count(&format!("lists:itemize:items={}", src.len().min(9)));
+    if real.is_none() {
+        o.count("lists:itemize:panic");
+        o.sample(serde_json::json!({"itemize-panic": {"sep": sep, "term": term, "first_pre": first_pre, "src": src.iter().map(|(_, p)| p.clone()).collect::<Vec<_>>()}}));
+    }
+    let req = format!("lists.itemize {} {} {} {} {}", enc_str(sep), enc_str(term), leave_last as u8, enc_str(first_pre), enc_src(src));
+    let answer = enc_items_out(real.clone());
+    if oracle && !src.is_empty() {
+        if let Some(items) = &real {
+            let req = format!("lists.oracle.gaps {} {} {} {}", enc_str(term), enc_str(first_pre), enc_src(src), enc_items(items));
+            if let Ok(path) = std::env::var("LISTS_DUMP") {
+                use std::io::Write;
+                if let Ok(mut f) = std::fs::OpenOptions::new().create(true).append(true).open(path) {
+                    let _ = writeln!(f, "{}", req);
+                }
+            }
+            o.push("oracle", "lists.oracle.gaps", req, "ok".into(), desc.into(), nontrivial);
+        }
+    }
+    o.push("corr", "lists.itemize", req, answer, desc.into(), nontrivial);
+}
+
+/// The four string functions on one snippet.
+fn snippet_ops(o: &mut Outcome, desc: &'static str, post: &str, sep: &str, term: &str) {
+    for is_last in [false, true] {
+        let ce = guard(|| hl::get_comment_end(post, sep, term, is_last));
+        o.push("corr", "lists.comment_end", format!("lists.comment_end {} {} {} {}", enc_str(post), enc_str(sep), enc_str(term), is_last as u8), ce.map(|n| n.to_string()).unwrap_or_else(|| "panic".into()), desc.into(), post.contains('/'));
+        if let Some(ce) = ce {
+            let ep = guard(|| hl::extract_post_comment(post, ce, sep, is_last));
+            o.push("corr", "lists.extract_post", format!("lists.extract_post {} {} {} {}", enc_str(post), ce, enc_str(sep), is_last as u8), ep.map(|x| enc_opt(&x)).unwrap_or_else(|| "panic".into()), desc.into(), post.contains('/'));
+            let en = guard(|| hl::has_extra_newline(post, ce));
+            o.push("corr", "lists.extra_newline", format!("lists.extra_newline {} {}", enc_str(post), ce), en.map(|b| (b as u8).to_string()).unwrap_or_else(|| "panic".into()), desc.into(), post.contains('\n'));
+            if ce <= post.len() {
+                let pre = &post[ce..];
+                let r = guard(|| hl::extract_pre_comment(pre));
+                o.push("corr", "lists.extract_pre", format!("lists.extract_pre {}", enc_str(pre)), r.map(|(c, st)| format!("{}:{}", enc_opt(&c), st)).unwrap_or_else(|| "panic".into()), desc.into(), pre.contains('/'));
+            }
+        }
+    }
+    let r = guard(|| hl::extract_pre_comment(post));
+    o.push("corr", "lists.extract_pre", format!("lists.extract_pre {}", enc_str(post)), r.map(|(c, st)| format!("{}:{}", enc_opt(&c), st)).unwrap_or_else(|| "panic".into()), desc.into(), post.contains('/'));
+}
+
+fn all_gaps(max_len: usize, alphabet: usize) -> Vec<String> {
+    let mut res = vec![String::new()];
+    let mut level = vec![String::new()];
+    for _ in 0..max_len {
+        let mut next = vec![];
+        for g in &level {
+            for p in &GAP_PIECES[..alphabet] {
+                next.push(format!("{}{}", g, p));
+            }
+        }
+        res.extend(next.iter().cloned());
+        level = next;
+    }
+    res
+}
+
+/// Is the gap "clean": outside its comments it holds blanks and exactly one separator?  (What a
+/// well-formed source has between two list items.)  Judged with rustfmt's own comment scanner.
+fn clean_gap(gap: &str, sep: &str, want_sep: usize) -> bool {
+    let kinds: Vec<char> = rustfmt_nightly::verif_hooks::comment::char_classes(gap).chars().collect();
+    let chars: Vec<char> = gap.chars().collect();
+    if kinds.iter().any(|k| !matches!(k, 'N' | 'S' | 'C' | 'E')) || sep.trim().is_empty() {
+        return false;
+    }
+    // a line comment must be closed by a newline inside the gap (otherwise it would swallow what follows)
+    let last_nl = chars.iter().rposition(|c| *c == '\n').map(|p| p + 1).unwrap_or(0);
+    for p in last_nl..chars.len() {
+        if kinds[p] == 'S' && chars[p] == '/' && chars.get(p + 1) == Some(&'/') {
+            return false;
+        }
+    }
+    // known finding LW1: a line comment whose text ends with the separator (see `probes`)
+    for line in gap.lines() {
+        if line.contains("//") && line.trim_end().ends_with(sep.trim()) {
+            return false;
+        }
+    }
+    let code: String = chars.iter().zip(kinds.iter()).filter(|(_, k)| **k == 'N').map(|(c, _)| *c).collect();
+    let bare = code.replace(sep.trim(), "");
+    bare.chars().all(|c| c.is_whitespace()) && code.matches(sep.trim()).count() == want_sep
+}
+
+pub fn itemize_cases(o: &mut Outcome, rng: &mut Rng, thorough: bool) {
+    let t0 = std::time::Instant::now();
+    let s = |x: &str| Some(x.to_string());
+    // every gap of up to 3 (thorough: 4) pieces over the first 9 pieces
+    let gaps = all_gaps(if thorough { 4 } else { 3 }, if thorough { 9 } else { 8 });
+    for g in &gaps {
+        snippet_ops(o, "exhaustive", g, ",", ")");
+        // between two items; as the last gap; in front of the first item
+        itemize_case(o, "exhaustive", ",", ")", false, "", &[(s("a"), g.clone()), (s("b"), String::new())], clean_gap(g, ",", 1));
+        itemize_case(o, "exhaustive", ",", ")", false, "", &[(s("a"), ", ".into()), (s("b"), g.clone())], clean_gap(g, ",", 1) || clean_gap(g, ",", 0));
+        if !g.contains(',') {
+            itemize_case(o, "exhaustive", ",", ")", false, g, &[(s("a"), String::new())], clean_gap(g, ",", 0));
+        }
+    }
+    o.count_n("lists:itemize-exhaustive-ms", t0.elapsed().as_millis() as u64);
+    // random: longer gaps over the whole alphabet, other separators, 0..=5 items, leave_last, failed items
+    let n = if thorough { 60_000 } else { 8_000 };
+    for _ in 0..n {
+        let sep = *rng.pick(&[",", ",", ",", ";", "|", "+"]);
+        let term = *rng.pick(&[")", "}", "|", ">"]);
+        let gap = |rng: &mut Rng, with_sep: bool| -> String {
+            let k = rng.below(6);
+            let at = rng.below(k + 1);
+            let mut g = String::new();
+            for i in 0..=k {
+                if i == at && with_sep {
+                    g.push_str(sep.trim());
+                }
+                if i < k {
+                    let p = *rng.pick(GAP_PIECES);
+                    // the alphabet's own separator piece would make a second separator
+                    g.push_str(if p == "," { " " } else { p });
+                }
+            }
+            g
+        };
+        let n_items = rng.below(6);
+        let first_pre = gap(rng, false);
+        let mut src = vec![];
+        for k in 0..n_items {
+            let last = k + 1 == n_items;
+            let ws = if last { rng.chance(1, 2) } else { !rng.chance(1, 12) };
+            let g = gap(rng, ws);
+            let it = if rng.chance(1, 40) { None } else { Some(format!("i{}", k)) };
+            src.push((it, g));
+        }
+        let all_clean = clean_gap(&first_pre, sep, 0) && src.iter().enumerate().all(|(k, (_, g))| if k + 1 == n_items { clean_gap(g, sep, 0) || clean_gap(g, sep, 1) } else { clean_gap(g, sep, 1) });
+        if all_clean {
+            o.count("lists:itemize:random-clean");
+        }
+        itemize_case(o, "random", sep, term, rng.chance(1, 10), &first_pre, &src, all_clean);
+        if rng.chance(1, 4) {
+            let ws = rng.chance(2, 3);
+            let g = gap(rng, ws);
+            snippet_ops(o, "random", &g, sep, term);
+        }
+    }
+    o.count_n("lists:itemize-total-ms", t0.elapsed().as_millis() as u64);
+
+    // enumerated probe of the one shape known dirty on the pinned tree (seed-independent)
+    let probe_src = vec![(s("a"), ", ".to_string()), (s("b"), " /* y */ // last,\n".to_string())];
+    let mut text = String::new();
+    let mut spans = vec![];
+    for (k, (it, post)) in probe_src.iter().enumerate() {
+        let lo = text.len();
+        text.push_str(&format!("x{}", k));
+        spans.push((lo, text.len(), it.clone()));
+        text.push_str(post);
+    }
+    let end = text.len();
+    let real = guard(|| hl::itemize(&text, &spans, ")", ",", 0, end, false)).unwrap_or_default();
+    let req = format!("lists.oracle.gaps {} {} {} {}", enc_str(")"), enc_str(""), enc_src(&probe_src), enc_items(&real));
+    let ans = run_model(&[req], 1);
+    let post = real.get(1).and_then(|x| x.post_comment.clone()).unwrap_or_default();
+    o.probes.push(serde_json::json!({"id": "LW1", "fails": ans[0] != "ok", "what": "the last item of a list followed by a block comment and then a line comment whose text ends with the list separator (`b /* y */ // last,` without a separator after `b`): extract_post_comment takes the comment's final `,` for the trailing separator and strips it (lists.rs:644-647 tests `ends_with(separator)` on the text, not on the code): the comment loses a character", "detail": format!("post_comment = {:?}, oracle = {}", post, ans[0])}));
+}
+
 /// Standalone: `rfverif lists --tier quick|thorough --seed N --out DIR`
 pub fn run(tier: &str, seed: u64, out: &std::path::Path) -> i32 {
     let mut o = Outcome::new("LISTS", tier, seed);
@@ -515,6 +713,9 @@ pub fn run(tier: &str, seed: u64, out: &std::path::Path) -> i32 {
     let prev = std::panic::take_hook();
     std::panic::set_hook(Box::new(|_| {}));
     cases(&mut o, &mut rng, tier == "thorough");
+    if std::env::var("LISTS_ITEMIZE").map(|v| v != "0").unwrap_or(true) {
+        itemize_cases(&mut o, &mut rng, tier == "thorough");
+    }
     std::panic::set_hook(prev);
     o.finish(out, jobs())
 }
